@@ -78,6 +78,16 @@ _RD_SERVES = ['C02', 'C12', 'C13', 'C16', 'C18', 'C10']
 ST = 'contracts/strings.c'
 
 UNITS = [
+    U('Parameters_write', WR, 'h_Parameters_write', ['Parameters__write/contract_Parameters__write'],
+      ['C01', 'C03', 'C13', 'C14', 'C10'], replace=['Group__write/contract_abs_Group__write'], unwind=5, loops=True, timeout=900,
+      pre_unwind={'vf_stream_write.0': 5, 'Parameters__write.0': 3},
+      level='PB', bound='records ending within 4 blocks of the header: every residue of the section length modulo 512 is covered symbolically',
+      assumes=['the group records are abstracted by a contract of Group::write: at least 5 bytes written after the current '
+               'position, earlier bytes untouched (assumed here)']),
+    U('Parameters_write_padding', WR, 'h_Z_Parameters_write', ['Parameters__write/contract_Z_Parameters__write'],
+      ['C01', 'C03', 'C14'], replace=['Group__write/contract_abs2_Group__write'], unwind=5, loops=True, timeout=900,
+      pre_unwind={'vf_stream_write.0': 5, 'Parameters__write.0': 3},
+      level='PB', bound='records ending within 4 blocks of the header (every residue modulo 512)', props={'memsafe': [], 'ub': [], 'frame': []}),
     U('B_Parameter_set_string', PA, 'h_Parameter_set_string', ['Parameter__set__vstr_vsz/contract_Parameter__set__vstr_vsz'],
       ['C09', 'C10', 'C13'],
       replace=['Parameter__isDimensionConsistent/contract_rec_Parameter__isDimensionConsistent',
